@@ -292,7 +292,16 @@ func vC14KsRunInBubble(t *testing.T, c *vh.Case, sc vC14KsScn, target int) *vC14
 	clientsDone := make(chan struct{})
 	go func() { cwg.Wait(); close(clientsDone) }()
 	settled := make(chan struct{})
-	go func() { <-clientsDone; time.Sleep(time.Second); close(settled) }()
+	go func() {
+		tm := time.NewTimer(3 * time.Minute) // calls that never return must not keep the reference run from closing
+		defer tm.Stop()
+		select {
+		case <-clientsDone:
+			time.Sleep(time.Second)
+		case <-tm.C:
+		}
+		close(settled)
+	}()
 	if target < 0 {
 		bd.FireNow()
 	}
@@ -344,7 +353,7 @@ func vC14KsRunInBubble(t *testing.T, c *vh.Case, sc vC14KsScn, target int) *vC14
 		case <-tm.C:
 			buf := make([]byte, 1<<22)
 			buf = buf[:runtime.Stack(buf, true)]
-			c.FailSig("close-hang", "close-hang@"+vh.BlockedRepoFrame(buf), "%s%s did not return within %v (%s; closed at event #%d %q, reset %s); goroutines:\n%s", tag, what, vC14KsCloseHang, sc, res.CloseIdx, res.CloseLabel, res.ResetState, vh.FilterBubble(buf))
+			c.FailSig("close-hang", vC14KsHangSig(buf), "%s%s did not return within %v (%s; closed at event #%d %q, reset %s); goroutines:\n%s", tag, what, vC14KsCloseHang, sc, res.CloseIdx, res.CloseLabel, res.ResetState, vh.FilterBubble(buf))
 			c.ExitNow()
 			return 0, nil
 		}
@@ -381,7 +390,12 @@ func vC14KsRunInBubble(t *testing.T, c *vh.Case, sc vC14KsScn, target int) *vC14
 		}
 		if cl.AfterClose {
 			nLate++
-			c.Check(errors.Is(cl.Err, ErrClosed) && cl.Ret-cl.Start <= time.Second, "late-call-errclosed", "%s%s started +%v, after Close returned (+%v), returned %v after %v instead of ErrClosed at once", tag, cl.What, cl.Start, closeRet, cl.Err, cl.Ret-cl.Start)
+			// operations document ErrClosed; ResetCids only has to fail (it may report its own derived context as cancelled)
+			okErr := errors.Is(cl.Err, ErrClosed) || (cl.What == "ResetCids" && cl.Err != nil)
+			c.Check(okErr && cl.Ret-cl.Start <= time.Second, "late-call-errclosed", "%s%s started +%v, after Close returned (+%v), returned %v after %v instead of ErrClosed at once", tag, cl.What, cl.Start, closeRet, cl.Err, cl.Ret-cl.Start)
+			if cl.What == "ResetCids" && !errors.Is(cl.Err, ErrClosed) {
+				c.Obs("late_resetcids_not_errclosed", 1)
+			}
 		}
 	}
 	mu.Unlock()
@@ -563,6 +577,17 @@ func TestVerif_C14_keystore_ctor(t *testing.T) {
 				c.Nontrivial(pt)
 			})
 		})
+}
+
+// vC14KsHangSig names the known cause "worker blocked answering an opStart whose ResetCids has
+// already returned on its cancelled context" with a stable signature of its own.
+func vC14KsHangSig(dump []byte) string {
+	for _, g := range vh.Goroutines(dump) {
+		if strings.Contains(g, "chan send") && strings.Contains(g, "(*ResettableKeystore).handleResetOp") {
+			return "resetcids-cancelled-during-start-wedges-worker"
+		}
+	}
+	return "close-hang@" + vh.BlockedRepoFrame(dump)
 }
 
 func slicesCompact(a []int) []int {
